@@ -216,454 +216,8 @@ def loops_of(ins):
     return res
 
 
-def classify(fn, tree, verdict):
-    """verdict: dict(kind=REJECT|NONUNIQUE, pc, reason, pcs) -> known class name or None"""
-    ins = listing(fn, tree)
-    by_pc = {i[0]: k for k, i in enumerate(ins)}
-    regs = try_regions(ins)
-    loops = loops_of(ins)
-    names = [i[1] for i in ins]
-    pc = verdict["pc"]
-    reason = verdict.get("reason")
-    at = ins[by_pc[pc]][1] if pc in by_pc else None
-
-    def in_try_body(q):
-        return [r for r in regs if r["body"] <= q < r["catch"]]
-
-    def jumps_out_of_try_in_loop():
-        """a Jump (break) or Loop (continue) inside a try body whose target lies outside that try statement
-        while the enclosing loop contains the try: the handler stays pushed"""
-        kinds = set()
-        for (q, nm, a, b, nx) in ins:
-            if nm == "Jump":
-                tgt = nx + a
-                for r in in_try_body(q):
-                    # the statement's own exit jump sits right after the body's PopExcHandler, i.e. at catch-3
-                    if q == r["catch"] - 3:
-                        continue
-                    if tgt > r["catch"] or tgt < r["push"]:
-                        kinds.add("break_in_try")
-            elif nm == "Loop":
-                tgt = nx - a
-                for r in in_try_body(q):
-                    if tgt <= r["push"]:
-                        kinds.add("continue_in_try")
-        # the same from a catch block or finally block: handlers of OUTER tries stay pushed
-        return kinds
-
-    def dead_pops_after_break():
-        """`Jump` immediately followed by Pop/CloseUpvalue that no other instruction targets: break_statement emits
-        the scope-end pops after the jump"""
-        targets = set()
-        for (q, nm, a, b, nx) in ins:
-            if nm in ("Jump", "JumpIfFalse", "JumpIfStopIter"):
-                targets.add(nx + a)
-            elif nm == "Loop":
-                targets.add(nx - a)
-            elif nm == "PushExcHandler":
-                targets.add(nx + a)
-                targets.add(nx + a + b)
-        hits = []
-        for k, (q, nm, a, b, nx) in enumerate(ins):
-            if nm == "Jump" and k + 1 < len(ins) and ins[k + 1][1] in ("Pop", "CloseUpvalue") and ins[k + 1][0] not in targets:
-                # must be a break: inside some loop, target = that loop's exit or beyond
-                if any(st <= q < lp for (st, lp, ex) in loops):
-                    hits.append(q)
-        return hits
-
-    early = jumps_out_of_try_in_loop()
-    dead = dead_pops_after_break()
-    finally_only = [r for r in regs if not r["has_catch"] and r["end"] is not None]
-    has_closure_capture = "Closure" in names
-    # 1. spurious PopExcHandler at the first instruction of a catch block
-    if reason == "NoHandler" and at == "PopExcHandler" and any(r["has_catch"] and r["catch"] == pc for r in regs):
-        return "catch_pops_outer"
-    # 2. early exits from try
-    if early and (reason in ("ReturnWithHandlers", "TooManyStates", "HandlerAboveStack", "NoHandler", "FuelExhausted")
-                  or verdict["kind"] == "NONUNIQUE"):
-        return sorted(early)[0]
-    # 3. open upvalue on an exceptional edge: a Closure capturing a local inside a try body
-    if reason == "PopCaptured":
-        if dead:
-            return "break_dead_pops"
-        if regs and has_closure_capture:
-            return "unwind_open_upvalue"
-    if verdict["kind"] == "NONUNIQUE":
-        pcs = verdict.get("pcs") or [pc]
-        # finally without catch: every nonunique pc from the first one lies at/after a finally-only region's start
-        if finally_only and any(r["fin"] <= pc for r in finally_only):
-            return "finally_two_heights"
-        if dead:
-            return "break_dead_pops"
-    if reason in ("TooManyStates", "FuelExhausted", "HandlerAboveStack", "ReturnWithHandlers") and finally_only and not early:
-        if any(r["fin"] <= pc or r["body"] <= pc for r in finally_only):
-            return "finally_two_heights"
-    if dead and reason in ("TooManyStates", "StackUnderflow", "PopBelowLocals", "LocalOutOfRange", "FuelExhausted"):
-        return "break_dead_pops"
-    return None
-
 
 # ------------------------------------------------------------------------------------------------
-# random program generator over the whole statement grammar (size bounded; every choice from ctx.rng)
-
-class Var:
-    __slots__ = ("name", "fdepth", "in_try", "is_global")
-
-    def __init__(self, name, fdepth, in_try, is_global):
-        self.name, self.fdepth, self.in_try, self.is_global = name, fdepth, in_try, is_global
-
-
-class Gen:
-    """profile 'clean': avoids the constructs with OPEN (unfixed) defects - finally, early exits (break /
-    continue / return) from try / catch, closures over variables declared inside a try statement - so that
-    after the byte-level repairs of the classes being fixed every function must verify;
-    profile 'full': the whole grammar."""
-
-    BINOPS = ["+", "-", "*", "/", "%", "==", "!=", "<", "<=", ">", ">=", "&", "|", "^", "<<", ">>", "&&", "||"]
-
-    def __init__(self, rng, profile="clean", size=30, maxdepth=5):
-        self.rng = rng
-        self.profile = profile
-        self.budget = size
-        self.maxdepth = maxdepth
-        self.n = 0
-        self.scopes = [[]]          # list of lists of Var (innermost last)
-        self.fdepth = 0             # function nesting depth
-        self.loop = [0]             # per function: loop nesting depth
-        self.try_body = [0]         # per function: nesting of try bodies / catch / finally blocks
-        self.in_class = []          # stack of dicts {has_super, kind}
-        self.fkind = ["script"]
-        self.features = set()
-
-    # -- names and scopes
-    def fresh(self, p="v"):
-        self.n += 1
-        return "%s%d" % (p, self.n)
-
-    def declare(self, name):
-        is_global = (len(self.scopes) == 1 and self.fdepth == 0)
-        v = Var(name, self.fdepth, self.try_body[-1] > 0, is_global)
-        self.scopes[-1].append(v)
-        return v
-
-    def visible(self):
-        res = []
-        for sc in self.scopes:
-            for v in sc:
-                if self.profile == "clean" and v.in_try and v.fdepth != self.fdepth and not v.is_global:
-                    continue
-                res.append(v)
-        return res
-
-    def pick_var(self):
-        vs = self.visible()
-        if not vs:
-            return None
-        r = self.rng.random()
-        if r < 0.45:
-            outer = [v for v in vs if v.fdepth < self.fdepth and not v.is_global]
-            if outer:
-                self.features.add("capture")
-                if any(v.fdepth < self.fdepth - 1 for v in outer):
-                    self.features.add("capture_deep")
-                return self.rng.choice(outer)
-        return self.rng.choice(vs[-8:]) if self.rng.random() < 0.6 else self.rng.choice(vs)
-
-    # -- expressions
-    def atom(self):
-        r = self.rng.random()
-        if r < 0.45:
-            v = self.pick_var()
-            if v:
-                return v.name
-        if r < 0.6:
-            return str(self.rng.choice([0, 1, 2, 3, 7, 10, 255, 256, 0.5, 1e3]))
-        if r < 0.7:
-            return self.rng.choice(['"s"', '"ab"', '""', '"x y"'])
-        if r < 0.8:
-            return self.rng.choice(["true", "false", "nil"])
-        if r < 0.86 and self.in_class and self.fkind[-1] in ("method", "init"):
-            return "self"
-        return str(self.rng.randint(0, 99))
-
-    def expr(self, d=0):
-        rng = self.rng
-        if d >= 3 or rng.random() < 0.3:
-            return self.atom()
-        k = rng.random()
-        if k < 0.25:
-            op = rng.choice(self.BINOPS)
-            if op in ("&&", "||"):
-                self.features.add("logic")
-            return "%s %s %s" % (self.expr(d + 1), op, self.expr(d + 1))
-        if k < 0.32:
-            return "%s%s" % (rng.choice(["-", "!", "~"]), self.atom())
-        if k < 0.42:
-            return "(%s)" % self.expr(d + 1)
-        if k < 0.55:
-            f = self.atom() if rng.random() < 0.7 else "(%s)" % self.expr(d + 1)
-            if not re.match(r"^[A-Za-z_(]", f):
-                f = "print"
-            return "%s(%s)" % (f, ", ".join(self.expr(d + 1) for _ in range(rng.randint(0, 3))))
-        if k < 0.63:
-            return "%s.%s(%s)" % (self.recv(), rng.choice(["m", "len", "push", "next", "go"]),
-                                  ", ".join(self.expr(d + 1) for _ in range(rng.randint(0, 2))))
-        if k < 0.68:
-            return "%s.%s" % (self.recv(), rng.choice(["p", "q", "len"]))
-        if k < 0.73:
-            return "%s[%s]" % (self.recv(), self.expr(d + 1))
-        if k < 0.79:
-            return "[%s]" % ", ".join(self.expr(d + 1) for _ in range(rng.randint(0, 4)))
-        if k < 0.83:
-            n = rng.randint(0, 3)
-            if n == 1:
-                return "(%s,)" % self.expr(d + 1)
-            return "(%s)" % ", ".join(self.expr(d + 1) for _ in range(n)) if n != 0 else "()"
-        if k < 0.87:
-            return "({%s})" % ", ".join("%s: %s" % (self.atom(), self.expr(d + 1)) for _ in range(rng.randint(0, 3)))
-        if k < 0.93:
-            self.features.add("interp")
-            parts = []
-            for _ in range(rng.randint(1, 3)):
-                if rng.random() < 0.6:
-                    parts.append(rng.choice(["a", " b ", "c:"]))
-                inner = self.expr(d + 2) if rng.random() < 0.7 else self.atom()
-                if '"' in inner and rng.random() < 0.5:
-                    inner = self.atom() if '"' not in self.atom() else "1"
-                parts.append("${%s}" % inner)
-            if rng.random() < 0.5:
-                parts.append("z")
-            return '"%s"' % "".join(parts)
-        if k < 0.96:
-            return "%s..%s" % (self.atom(), self.atom())
-        return self.lambda_expr(d)
-
-    def recv(self):
-        a = self.atom()
-        if not re.match(r"^[A-Za-z_]", a) or a in ("true", "false", "nil"):
-            return "(%s)" % a
-        return a
-
-    def lambda_expr(self, d):
-        self.features.add("lambda")
-        params = [self.fresh("p") for _ in range(self.rng.randint(0, 3))]
-        self.enter_fn("lambda", params)
-        if self.rng.random() < 0.5 or self.budget <= 0:
-            body = self.expr(d + 1)
-            if body.startswith("{"):
-                body = "(%s)" % body
-            src = "|%s| %s" % (", ".join(params), body)
-        else:
-            body = self.block_items(self.rng.randint(1, 3), 1)
-            src = "|%s| {\n%s\n}" % (", ".join(params), body)
-        self.leave_fn()
-        return "(%s)" % src
-
-    # -- functions
-    def enter_fn(self, kind, params):
-        self.fdepth += 1
-        self.loop.append(0)
-        self.try_body.append(0)
-        self.fkind.append(kind)
-        self.scopes.append([])
-        for p in params:
-            if p != "self":
-                self.declare(p)
-
-    def leave_fn(self):
-        self.scopes.pop()
-        self.fkind.pop()
-        self.try_body.pop()
-        self.loop.pop()
-        self.fdepth -= 1
-
-    def block_items(self, n, depth):
-        out = []
-        for _ in range(n):
-            out.append(self.statement(depth))
-        return "\n".join(out)
-
-    def block(self, n, depth):
-        self.scopes.append([])
-        body = self.block_items(n, depth)
-        self.scopes.pop()
-        return "{\n%s\n}" % body
-
-    def early_ok(self):
-        """may a break/continue/return be emitted here under the current profile?"""
-        return self.profile == "full" or self.try_body[-1] == 0
-
-    def statement(self, depth):
-        rng = self.rng
-        self.budget -= 1
-        small = depth >= self.maxdepth or self.budget <= 0
-        k = rng.random()
-        if small or k < 0.22:
-            return self.simple_statement()
-        n = rng.randint(1, 4)
-        if k < 0.32:
-            self.features.add("if")
-            s = "if %s %s" % (self.expr(1), self.block(n, depth + 1))
-            while rng.random() < 0.3:
-                s += " else if %s %s" % (self.expr(1), self.block(rng.randint(0, 2), depth + 1))
-            if rng.random() < 0.5:
-                s += " else %s" % self.block(rng.randint(0, 3), depth + 1)
-            return s
-        if k < 0.42:
-            self.features.add("while")
-            c = self.expr(1)
-            self.loop[-1] += 1
-            b = self.block(n, depth + 1)
-            self.loop[-1] -= 1
-            return "while %s %s" % (c, b)
-        if k < 0.52:
-            self.features.add("for")
-            it = rng.choice(["0..3", "[1, 2, 3]", self.expr(2)])
-            self.scopes.append([])
-            v = self.fresh("i")
-            self.declare(v)
-            self.loop[-1] += 1
-            b = self.block(n, depth + 1)
-            self.loop[-1] -= 1
-            self.scopes.pop()
-            return "for %s in %s %s" % (v, it, b)
-        if k < 0.60:
-            return self.block(n, depth + 1)
-        if k < 0.72:
-            self.features.add("fn")
-            name = self.fresh("f")
-            self.declare(name)
-            params = [self.fresh("p") for _ in range(rng.randint(0, 3))]
-            self.enter_fn("fn", params)
-            body = self.block_items(rng.randint(1, 5), depth + 1)
-            self.leave_fn()
-            return "fn %s(%s) {\n%s\n}" % (name, ", ".join(params), body)
-        if k < 0.86:
-            return self.try_statement(depth)
-        if k < 0.93:
-            return self.class_decl(depth)
-        return self.simple_statement()
-
-    def try_statement(self, depth):
-        rng = self.rng
-        self.features.add("try")
-        self.try_body[-1] += 1
-        body = self.block(rng.randint(0, 4), depth + 1)
-        have_catch = rng.random() < 0.75 or self.profile == "clean"
-        have_finally = self.profile == "full" and (not have_catch or rng.random() < 0.4)
-        s = "try %s" % body
-        if have_catch:
-            self.scopes.append([])
-            e = self.fresh("e")
-            self.declare(e)
-            s += " catch %s %s" % (e, self.block(rng.randint(0, 3), depth + 1))
-            self.scopes.pop()
-        if have_finally:
-            self.features.add("finally")
-            s += " finally %s" % self.block(rng.randint(0, 3), depth + 1)
-        self.try_body[-1] -= 1
-        return s
-
-    def class_decl(self, depth):
-        rng = self.rng
-        self.features.add("class")
-        name = self.fresh("K")
-        attrs = []
-        if rng.random() < 0.5:
-            attrs.append("constructor(new)")
-        base = None
-        cands = [v.name for v in self.visible() if v.name.startswith("K")]
-        if cands and rng.random() < 0.5:
-            base = rng.choice(cands)
-            attrs.append("derive(%s)" % base)
-        self.declare(name)
-        self.in_class.append({"has_super": base is not None})
-        members = []
-        for _ in range(rng.randint(0, 3)):
-            r = rng.random()
-            mname = self.fresh("m")
-            params = [self.fresh("p") for _ in range(rng.randint(0, 2))]
-            if r < 0.2:
-                self.enter_fn("static", params)
-                body = self.block_items(rng.randint(1, 3), depth + 2)
-                self.leave_fn()
-                members.append("#[static]\nfn %s(%s) {\n%s\n}" % (mname, ", ".join(params), body))
-            elif r < 0.35 and "constructor(new)" not in attrs and not any("#[constructor]" in m for m in members):
-                self.enter_fn("init", ["self"] + params)
-                body = self.block_items(rng.randint(1, 3), depth + 2)
-                self.leave_fn()
-                members.append("#[constructor]\nfn new(%s) {\n%s\n}" % (", ".join(["self"] + params), body))
-            else:
-                self.enter_fn("method", ["self"] + params)
-                body = self.block_items(rng.randint(1, 4), depth + 2)
-                self.leave_fn()
-                members.append("fn %s(%s) {\n%s\n}" % (mname, ", ".join(["self"] + params), body))
-        self.in_class.pop()
-        head = ("#[%s]\n" % ", ".join(attrs)) if attrs else ""
-        return "%sclass %s {\n%s\n}" % (head, name, "\n".join(members))
-
-    def simple_statement(self):
-        rng = self.rng
-        k = rng.random()
-        if k < 0.28:
-            name = self.fresh("v")
-            init = self.expr(0)
-            s = "var %s = %s;" % (name, init) if rng.random() < 0.9 else "var %s;" % name
-            self.declare(name)
-            return s
-        if k < 0.40:
-            v = self.pick_var()
-            if v:
-                op = rng.choice(["=", "=", "=", "+=", "-="])
-                rhs = self.expr(1) if op == "=" else self.atom()
-                return "%s %s %s;" % (v.name, op, rhs)
-        if k < 0.46:
-            return "%s.%s = %s;" % (self.recv(), rng.choice(["p", "q"]), self.expr(1))
-        if k < 0.50:
-            return "%s[%s] = %s;" % (self.recv(), self.atom(), self.expr(1))
-        if k < 0.62:
-            return "print(%s);" % self.expr(0)
-        if k < 0.70 and self.loop[-1] > 0 and self.early_ok():
-            self.features.add("break")
-            if self.try_body[-1] > 0:
-                self.features.add("break_in_try")
-            return "break;"
-        if k < 0.77 and self.loop[-1] > 0 and self.early_ok():
-            self.features.add("continue")
-            return "continue;"
-        if k < 0.87 and self.fkind[-1] != "script" and self.early_ok():
-            self.features.add("return")
-            if self.fkind[-1] == "init" or rng.random() < 0.2:
-                return "return;"
-            return "return %s;" % self.expr(1)
-        if k < 0.91:
-            self.features.add("throw")
-            return "throw %s;" % self.expr(1)
-        if k < 0.94 and self.in_class and self.in_class[-1]["has_super"] and self.fkind[-1] in ("method", "init"):
-            self.features.add("super")
-            return "super.%s(%s);" % (rng.choice(["m", "go"]), self.atom())
-        e = self.expr(0)
-        if not re.match(r"^[A-Za-z_(]", e) or e.startswith("({"):
-            e = "(%s)" % e
-        return "%s;" % e
-
-    def program(self):
-        out = []
-        while self.budget > 0:
-            out.append(self.statement(0))
-        return "\n".join(out)
-
-
-def gen_program(rng, profile, size=None):
-    g = Gen(rng, profile, size=size or rng.choice([8, 15, 25, 40, 60]))
-    src = g.program()
-    return src, sorted(g.features)
-
-
-# ------------------------------------------------------------------------------------------------
-# byte-level repairs mirroring the minimal source fixes of the classes that are being fixed
-# (used ONLY to decide whether a flagged function is fully explained by those classes)
-
 JUMPS = ("Jump", "JumpIfFalse", "JumpIfStopIter")
 
 
@@ -678,125 +232,6 @@ def jump_targets(ins):
             t.add(nx + a)
             t.add(nx + a + b)
     return t
-
-
-def reassemble(fn, ins, delete=(), insert=None):
-    """delete: set of pcs of instructions to drop; insert: {pc: [opcode byte, ...]} one-byte instructions placed
-    before the instruction at pc.  Jump operands are recomputed so that every jump reaches the instruction it
-    reached before (a deleted target -> the next surviving instruction; an insertion point -> the first inserted
-    instruction).  Returns the new code bytes or None when a distance no longer fits."""
-    insert = insert or {}
-    code = fn.code
-    newpc = {}
-    items = []     # (old instr or None, raw bytes)
-    pos = 0
-    for i in ins:
-        q, nm, a, b, nx = i
-        first = pos
-        for byte in insert.get(q, []):
-            items.append((None, bytes([byte]), pos))
-            pos += 1
-        if q in delete:
-            newpc[q] = None
-            continue
-        newpc[q] = first
-        items.append((i, bytes(code[q:nx]), pos))
-        pos += nx - q
-    newpc[len(code)] = pos
-    # a deleted instruction maps to the next surviving position
-    last = pos
-    for i in reversed(ins):
-        if newpc[i[0]] is None:
-            newpc[i[0]] = last
-        else:
-            last = newpc[i[0]]
-    out = bytearray()
-    for (i, raw, p) in items:
-        if i is None:
-            out += raw
-            continue
-        q, nm, a, b, nx = i
-        nnx = p + (nx - q)
-        raw = bytearray(raw)
-        try:
-            if nm in JUMPS:
-                d = newpc[nx + a] - nnx
-                if not (0 <= d <= 0xFFFF):
-                    return None
-                raw[1], raw[2] = d & 255, d >> 8
-            elif nm == "Loop":
-                d = nnx - newpc[nx - a]
-                if not (0 <= d <= 0xFFFF):
-                    return None
-                raw[1], raw[2] = d & 255, d >> 8
-            elif nm == "PushExcHandler":
-                c = newpc[nx + a]
-                f_ = newpc[nx + a + b]
-                d1, d2 = c - nnx, f_ - c
-                if not (0 <= d1 <= 0xFFFF and 0 <= d2 <= 0xFFFF):
-                    return None
-                raw[1], raw[2], raw[3], raw[4] = d1 & 255, d1 >> 8, d2 & 255, d2 >> 8
-        except KeyError:
-            return None   # a jump into the middle of an instruction: not linear code
-        out += raw
-    return bytes(out)
-
-
-def catch_pop_sites(ins):
-    """PopExcHandler at the first instruction of a catch block (PushExcHandler with a non-empty catch part)"""
-    by_pc = {i[0]: i for i in ins}
-    sites = []
-    for (q, nm, a, b, nx) in ins:
-        if nm == "PushExcHandler" and b != 0:
-            c = nx + a
-            if c in by_pc and by_pc[c][1] == "PopExcHandler":
-                sites.append(c)
-    return sites
-
-
-def break_sites(ins):
-    """(pc of Jump, [pcs of the dead Pop/CloseUpvalue run right after it]) for forward jumps inside a loop"""
-    tg = jump_targets(ins)
-    loops = loops_of(ins)
-    res = []
-    for k, (q, nm, a, b, nx) in enumerate(ins):
-        if nm != "Jump" or not any(st <= q < lp for (st, lp, ex) in loops):
-            continue
-        run = []
-        j = k + 1
-        while j < len(ins) and ins[j][1] in ("Pop", "CloseUpvalue") and ins[j][0] not in tg:
-            run.append(ins[j][0])
-            j += 1
-        if run:
-            res.append((q, run))
-    return res
-
-
-def repair_variants(fn, tree, limit=48):
-    """-> list of (classes tuple, new code), smallest repair first.  Only break_dead_pops has a byte-level repair
-    (move k of the dead pops in front of the break's Jump, k unknown: the run may end with the enclosing block's own
-    scope-end pops).  The former repair of catch_pops_outer is gone with the class (fixed in /repo da1fd00): a
-    PopExcHandler at the start of a catch block is a VIOLATION again."""
-    import itertools
-    ins = listing(fn, tree)
-    if not ins or ins[-1][4] != len(fn.code):
-        return []
-    bs = break_sites(ins)
-    if not bs:
-        return []
-    code_of = {i[0]: fn.code[i[0]] for i in ins}
-    variants = []
-    ranges = [list(range(len(run), (len(run) + 1) // 2 - 1, -1)) for (q, run) in bs]
-    for ks in itertools.islice(itertools.product(*ranges), limit):
-        delete, insert = set(), {}
-        for (q, run), k in zip(bs, ks):
-            moved = run[:k]
-            delete |= set(moved)
-            insert[q] = [code_of[m] for m in moved]
-        code = reassemble(fn, ins, delete, insert)
-        if code is not None:
-            variants.append((("break_dead_pops",), code))
-    return variants
 
 
 # ------------------------------------------------------------------------------------------------
@@ -824,7 +259,10 @@ def parse_verdict(s):
 
 
 def residual_class(code, fn, tree, v):
-    """known OPEN class of verdict v (dict) for the function bytes `code`, or None"""
+    """OPEN known class (names of /verif/known_findings.json, recorded there under C08 and - for the shape
+    consequences seen here - under C04) of verdict v for the function bytes `code`, or None.
+    Every class is (reason set, instruction shape); all of them need a try statement with a `finally` clause or a
+    `return` inside a try statement in the flagged function."""
     f2 = Fn(fn.idx, fn.arity, fn.upv, fn.name, code)
     f2.consts = fn.consts
     ins = listing(f2, tree)
@@ -832,76 +270,89 @@ def residual_class(code, fn, tree, v):
     regs = try_regions(ins)
     loops = loops_of(ins)
     kind, pc, reason = v["kind"], v.get("pc", 0), v.get("reason")
+    at = ins[by_pc[pc]][1] if pc in by_pc else None
+    loop_reasons = ("TooManyStates", "FuelExhausted")
 
     def bodies_at(q):
         return [r for r in regs if r["body"] <= q < r["catch"] - 4]
 
-    def handlers_live_at(q):
-        """try statements whose handler is (statically) pushed at q: q in the try body"""
-        return [r for r in regs if r["body"] <= q < r["catch"] - 4]
-
-    early = set()
-    jf_depths = []
-    for (q, nm, a, b, nx) in ins:
-        if nm == "Jump":
-            tgt = nx + a
-            for r in bodies_at(q):
-                if tgt > r["catch"] and any(st <= r["push"] and q < lp < tgt for (st, lp, ex) in loops):
-                    early.add("break_in_try")
-        elif nm == "Loop":
-            tgt = nx - a
-            for r in bodies_at(q):
-                if tgt <= r["push"]:
-                    early.add("continue_in_try")
-        elif nm == "JumpFinally":
-            jf_depths.append((q, len(bodies_at(q))))
-    # a break/continue inside a catch or finally block of a try nested in another try body leaves the outer handler
+    jfs = [(q, bodies_at(q)) for (q, nm, a, b, nx) in ins if nm == "JumpFinally"]
     finally_only = [r for r in regs if not r["has_catch"]]
-    with_catch = [r for r in regs if r["has_catch"]]
-    closure_in_try = any(nm == "Closure" and (nx - q) > 3 and any(r["body"] <= q for r in regs) for (q, nm, a, b, nx) in ins)
-    loop_reasons = ("TooManyStates", "FuelExhausted")
-    at = ins[by_pc[pc]][1] if pc in by_pc else None
+    has_endfinally = any(i[1] == "EndFinally" for i in ins)
+    # handling_exception_global: EndFinally reached on the normal path may rethrow (one flag per VM): the rethrow
+    # edge pops a non-exception and unwinds to an enclosing handler of the same frame
     if at == "EndFinally" and reason in ("HandlerAboveStack", "StackUnderflow") and len(regs) >= 2:
-        return "endfinally_rethrow_on_normal_path"
-    if early and (kind == "NONUNIQUE" or reason in ("ReturnWithHandlers", "HandlerAboveStack") + loop_reasons):
-        return sorted(early)[0]
-    if reason == "PopCaptured" and closure_in_try:
-        return "unwind_open_upvalue"
-    jf_in_catch_try = any(nm == "JumpFinally" and bodies_at(q) and max(bodies_at(q), key=lambda r: r["push"])["has_catch"]
-                          for (q, nm, a, b, nx) in ins)
-    if jf_in_catch_try and (kind == "NONUNIQUE" or reason in ("ReturnPending", "ReturnWithHandlers", "HandlerAboveStack") + loop_reasons):
-        return "return_in_try_falls_through"
+        return "handling_exception_global"
+    # return_in_try_catch_no_finally: JumpFinally whose innermost try has a catch clause: its target is the code
+    # after the statement, reached with a pending return (falls through; next Return / EndFinally misbehaves)
+    if any(bs and max(bs, key=lambda r: r["push"])["has_catch"] for q, bs in jfs) and (
+            kind == "NONUNIQUE" or reason in ("ReturnPending", "ReturnWithHandlers", "HandlerAboveStack") + loop_reasons):
+        return "return_in_try_catch_no_finally"
+    # early_exit_skips_finally: return through two nested tries (only one level of JumpFinally), or a return inside
+    # a finally block reached with a pending return
     if reason == "ReturnPending" and at == "Return" and any(
-            r["fin"] <= pc and any(nm == "JumpFinally" and r["body"] <= q < r["catch"] for (q, nm, a, b, nx) in ins)
-            for r in regs):
-        return "return_in_finally"
-    if reason in ("ReturnWithHandlers", "HandlerAboveStack") and any(d >= 2 for _, d in jf_depths):
-        return "return_through_nested_try"
-    if finally_only:
+            r["fin"] <= pc and any(r["body"] <= q < r["catch"] for q, _ in jfs) for r in regs):
+        return "early_exit_skips_finally"
+    if any(len(bs) >= 2 for q, bs in jfs) and (
+            kind == "NONUNIQUE" or reason in ("ReturnWithHandlers", "HandlerAboveStack", "ReturnPending") + loop_reasons):
+        return "early_exit_skips_finally"
+    # finally_local: a finally region without catch is entered at h (normal) and h+1 (exception)
+    if finally_only and has_endfinally:
         first = min(r["fin"] for r in finally_only)
         in_loop = any(st <= r["push"] < lp for r in finally_only for (st, lp, ex) in loops)
         if kind == "NONUNIQUE" and (pc >= first or in_loop):
-            return "finally_two_heights"
+            return "finally_local"
         if reason in loop_reasons and in_loop:
-            return "finally_two_heights"
+            return "finally_local"
         if reason in ("LocalOutOfRange", "StackUnderflow", "PopBelowLocals", "HandlerAboveStack", "ReturnWithHandlers",
                       "PopCaptured") and pc >= first:
-            return "finally_two_heights"
+            return "finally_local"
     return None
 
 
 # ------------------------------------------------------------------------------------------------
 # pipeline: sources -> real compiler -> wire -> proved verifier -> classification
 
+def rle_consts(fn, ren):
+    out = []
+    prev, cnt = None, 0
+    for c in fn.consts:
+        k = c[0] if c[0] in "snf" else "o"
+        if k == "f":
+            if prev:
+                out.append(prev + (str(cnt) if cnt > 1 else ""))
+                prev, cnt = None, 0
+            out.append("f%d." % ren[int(c[1:])])
+        elif k == prev:
+            cnt += 1
+        else:
+            if prev:
+                out.append(prev + (str(cnt) if cnt > 1 else ""))
+            prev, cnt = k, 1
+    if prev:
+        out.append(prev + (str(cnt) if cnt > 1 else ""))
+    return "".join(out)
+
+
 def wire_with(tree, replace=None):
-    """wire string with the code of some functions (by depth-first index) replaced"""
+    """Gallina term of type `list YV.VerifierWire.wfn` (breadth-first numbering; code as primitive int literals of
+    7 bytes each) for the function tree; `replace` maps a depth-first index to other code bytes"""
     fns, ren = bfs_order(tree)
     parts = []
     for fn in fns:
         code = replace.get(fn.idx, fn.code) if replace else fn.code
-        cs = "".join(("f%d." % ren[int(c[1:])]) if c[0] == "f" else (c[0] if c[0] in "sn" else "o") for c in fn.consts)
-        parts.append("%d,%d:%s:%s" % (fn.arity, fn.upv, code.hex(), cs))
-    return "|".join(parts), fns, ren
+        pad = code + bytes((-len(code)) % 7)
+        ints = ";".join("0x" + pad[i:i + 7].hex() for i in range(0, len(pad), 7))
+        parts.append('(%d%%N,%d%%N,%d%%N,[%s]%%uint63,"%s"%%string)' % (fn.arity, fn.upv, len(code), ints, rle_consts(fn, ren)))
+    return "[" + ";".join(parts) + "]", fns, ren
+
+
+def echo_of(tree):
+    """what YV.VerifierWire.echo_w must print for this tree (self-test of the wire format)"""
+    fns, ren = bfs_order(tree)
+    return "|".join("%d,%d:%s:%s" % (fn.arity, fn.upv, " ".join(str(b) for b in fn.code),
+                                     "".join(("f%d." % ren[int(c[1:])]) if c[0] == "f" else (c[0] if c[0] in "sn" else "o")
+                                             for c in fn.consts)) for fn in fns)
 
 
 def load_findings():
@@ -910,6 +361,10 @@ def load_findings():
             return {e["class"]: e for e in json.load(fh) if e.get("property") == "C04"}
     except Exception:
         return {}
+
+
+IMPORTS = ["YV:VerifierRun", "YV:VerifierWire"]
+PREAMBLE = "From Coq Require Import Uint63.\n"
 
 
 def coq_reports(terms_sizes, tag):
@@ -921,12 +376,12 @@ def coq_reports(terms_sizes, tag):
     out = [None] * len(terms_sizes)
 
     def run_big():
-        return yvlib.coq_eval(["YV:VerifierRun"], [terms_sizes[i][0] for i in big], shard_size=1, tag=tag + "_big")
+        return yvlib.coq_eval(IMPORTS, [terms_sizes[i][0] for i in big], shard_size=1, tag=tag + "_big", preamble=PREAMBLE)
 
     def run_small():
         n = len(small)
         shard = max(1, min(150, (n + yvlib.NPROC - 1) // yvlib.NPROC))
-        return yvlib.coq_eval(["YV:VerifierRun"], [terms_sizes[i][0] for i in small], shard_size=shard, tag=tag + "_small")
+        return yvlib.coq_eval(IMPORTS, [terms_sizes[i][0] for i in small], shard_size=shard, tag=tag + "_small", preamble=PREAMBLE)
 
     with ThreadPoolExecutor(max_workers=2) as ex:
         fb = ex.submit(run_big)
@@ -978,10 +433,10 @@ def judge(items, tag):
     terms = []
     for it in items:
         w, it.fns, it.ren = wire_with(it.tree)
-        terms.append(('run_report "%s"%%string' % w, len(w) // 2))
+        terms.append(("run_report_w %s" % w, sum(len(f.code) for f in it.fns)))
     vals = coq_reports(terms, tag)
-    pending = []
     for it, v in zip(items, vals):
+        it.flags = []
         if v is None or v == "PARSE-ERROR" or ";" not in v:
             it.head = {"ALL": "?", "error": v}
             continue
@@ -990,38 +445,8 @@ def judge(items, tag):
         it.verdicts = [parse_verdict(x) for x in body.split("|")]
         for k, (fn, vd) in enumerate(zip(it.fns, it.verdicts)):
             if vd["kind"] != "OK":
-                pending.append((it, k, fn, vd))
-    # second round: byte-level repairs of the classes being fixed
-    terms2, owners = [], []
-    for (it, k, fn, vd) in pending:
-        for classes, code in repair_variants(fn, it.tree):
-            w, _, _ = wire_with(it.tree, {fn.idx: code})
-            terms2.append(('run_report_fn %d "%s"%%string' % (k, w), len(w) // 2))
-            owners.append((len(owners), it, k, fn, vd, classes, code))
-    vals2 = coq_reports(terms2, tag + "_rep") if terms2 else []
-    by_flag = {}
-    for (ix, it, k, fn, vd, classes, code), v in zip(owners, vals2):
-        by_flag.setdefault((id(it), k), []).append((classes, code, parse_verdict(v) if v else None))
-    for (it, k, fn, vd) in pending:
-        cls = None
-        variants = by_flag.get((id(it), k), [])
-        for classes, code, v2 in variants:
-            if v2 and v2["kind"] == "OK":
-                cls = classes
-                break
-        if cls is None:
-            r = residual_class(fn.code, fn, it.tree, vd)
-            if r:
-                cls = (r,)
-        if cls is None:
-            for classes, code, v2 in variants:
-                if v2 is None:
-                    continue
-                r = residual_class(code, fn, it.tree, v2)
-                if r:
-                    cls = tuple(sorted(set(classes + (r,))))
-                    break
-        it.flags.append((k, fn, vd, cls))
+                r = residual_class(fn.code, fn, it.tree, vd)
+                it.flags.append((k, fn, vd, (r,) if r else None))
     return items
 
 
@@ -1185,3 +610,351 @@ def limit_family(binary, quick=True):
             items.append(it)
         rows.append(row)
     return rows, items, {(p[1], p[3]): p[4] for p in plans}
+
+
+# ------------------------------------------------------------------------------------------------
+# random program generator over the whole statement grammar (size bounded; every choice from ctx.rng)
+
+class Var:
+    __slots__ = ("name", "fdepth", "is_global")
+
+    def __init__(self, name, fdepth, is_global):
+        self.name, self.fdepth, self.is_global = name, fdepth, is_global
+
+
+class Gen:
+    """profile 'clean': the whole grammar minus the constructs with OPEN known defects (a `finally` clause; a
+    `return` anywhere inside a try statement) - every function must verify;
+    profile 'full': the whole grammar (flagged functions must fall into the open classes)."""
+
+    BINOPS = ["+", "-", "*", "/", "%", "==", "!=", "<", "<=", ">", ">=", "&", "|", "^", "<<", ">>", "&&", "||"]
+
+    def __init__(self, rng, profile="clean", size=30, maxdepth=5):
+        self.rng = rng
+        self.profile = profile
+        self.budget = size
+        self.maxdepth = maxdepth
+        self.n = 0
+        self.scopes = [[]]          # list of lists of Var (innermost last)
+        self.fdepth = 0             # function nesting depth
+        self.loop = [0]             # per function: loop nesting depth
+        self.in_try = [0]           # per function: nesting of try statements (body, catch and finally blocks)
+        self.in_class = []          # stack of dicts {has_super}
+        self.fkind = ["script"]
+        self.features = set()
+
+    # -- names and scopes
+    def fresh(self, p="v"):
+        self.n += 1
+        return "%s%d" % (p, self.n)
+
+    def declare(self, name):
+        is_global = (len(self.scopes) == 1 and self.fdepth == 0)
+        v = Var(name, self.fdepth, is_global)
+        self.scopes[-1].append(v)
+        return v
+
+    def visible(self):
+        return [v for sc in self.scopes for v in sc]
+
+    def pick_var(self):
+        vs = self.visible()
+        if not vs:
+            return None
+        if self.rng.random() < 0.45:
+            outer = [v for v in vs if v.fdepth < self.fdepth and not v.is_global]
+            if outer:
+                self.features.add("capture")
+                if any(v.fdepth < self.fdepth - 1 for v in outer):
+                    self.features.add("capture_deep")
+                if self.in_try[-1] > 0:
+                    self.features.add("closure_in_try")
+                return self.rng.choice(outer)
+        return self.rng.choice(vs[-8:]) if self.rng.random() < 0.6 else self.rng.choice(vs)
+
+    # -- expressions
+    def atom(self):
+        r = self.rng.random()
+        if r < 0.45:
+            v = self.pick_var()
+            if v:
+                return v.name
+        if r < 0.6:
+            return str(self.rng.choice([0, 1, 2, 3, 7, 10, 255, 256, 0.5, 1e3]))
+        if r < 0.7:
+            return self.rng.choice(['"s"', '"ab"', '""', '"x y"'])
+        if r < 0.8:
+            return self.rng.choice(["true", "false", "nil"])
+        if r < 0.86 and self.in_class and self.fkind[-1] in ("method", "init"):
+            return "self"
+        return str(self.rng.randint(0, 99))
+
+    def expr(self, d=0):
+        rng = self.rng
+        if d >= 3 or rng.random() < 0.3:
+            return self.atom()
+        k = rng.random()
+        if k < 0.25:
+            op = rng.choice(self.BINOPS)
+            if op in ("&&", "||"):
+                self.features.add("logic")
+            return "%s %s %s" % (self.expr(d + 1), op, self.expr(d + 1))
+        if k < 0.32:
+            return "%s%s" % (rng.choice(["-", "!", "~"]), self.atom())
+        if k < 0.42:
+            return "(%s)" % self.expr(d + 1)
+        if k < 0.55:
+            f = self.atom() if rng.random() < 0.7 else "(%s)" % self.expr(d + 1)
+            if not re.match(r"^[A-Za-z_(]", f):
+                f = "print"
+            return "%s(%s)" % (f, ", ".join(self.expr(d + 1) for _ in range(rng.randint(0, 3))))
+        if k < 0.63:
+            return "%s.%s(%s)" % (self.recv(), rng.choice(["m", "len", "push", "next", "go"]),
+                                  ", ".join(self.expr(d + 1) for _ in range(rng.randint(0, 2))))
+        if k < 0.68:
+            return "%s.%s" % (self.recv(), rng.choice(["p", "q", "len"]))
+        if k < 0.73:
+            return "%s[%s]" % (self.recv(), self.expr(d + 1))
+        if k < 0.79:
+            return "[%s]" % ", ".join(self.expr(d + 1) for _ in range(rng.randint(0, 4)))
+        if k < 0.83:
+            n = rng.randint(0, 3)
+            if n == 1:
+                return "(%s,)" % self.expr(d + 1)
+            return "(%s)" % ", ".join(self.expr(d + 1) for _ in range(n)) if n != 0 else "()"
+        if k < 0.87:
+            return "({%s})" % ", ".join("%s: %s" % (self.atom(), self.expr(d + 1)) for _ in range(rng.randint(0, 3)))
+        if k < 0.93:
+            self.features.add("interp")
+            parts = []
+            for _ in range(rng.randint(1, 3)):
+                if rng.random() < 0.6:
+                    parts.append(rng.choice(["a", " b ", "c:"]))
+                inner = self.expr(d + 2) if rng.random() < 0.7 else self.atom()
+                if '"' in inner and rng.random() < 0.5:
+                    inner = "1"
+                parts.append("${%s}" % inner)
+            if rng.random() < 0.5:
+                parts.append("z")
+            return '"%s"' % "".join(parts)
+        if k < 0.96:
+            return "%s..%s" % (self.atom(), self.atom())
+        return self.lambda_expr(d)
+
+    def recv(self):
+        a = self.atom()
+        if not re.match(r"^[A-Za-z_]", a) or a in ("true", "false", "nil"):
+            return "(%s)" % a
+        return a
+
+    def lambda_expr(self, d):
+        self.features.add("lambda")
+        params = [self.fresh("p") for _ in range(self.rng.randint(0, 3))]
+        self.enter_fn("lambda", params)
+        if self.rng.random() < 0.5 or self.budget <= 0:
+            body = self.expr(d + 1)
+            if body.startswith("{"):
+                body = "(%s)" % body
+            src = "|%s| %s" % (", ".join(params), body)
+        else:
+            body = self.block_items(self.rng.randint(1, 3), 1)
+            src = "|%s| {\n%s\n}" % (", ".join(params), body)
+        self.leave_fn()
+        return "(%s)" % src
+
+    # -- functions
+    def enter_fn(self, kind, params):
+        self.fdepth += 1
+        self.loop.append(0)
+        self.in_try.append(0)
+        self.fkind.append(kind)
+        self.scopes.append([])
+        for p in params:
+            if p != "self":
+                self.declare(p)
+
+    def leave_fn(self):
+        self.scopes.pop()
+        self.fkind.pop()
+        self.in_try.pop()
+        self.loop.pop()
+        self.fdepth -= 1
+
+    def block_items(self, n, depth):
+        return "\n".join(self.statement(depth) for _ in range(n))
+
+    def block(self, n, depth):
+        self.scopes.append([])
+        body = self.block_items(n, depth)
+        self.scopes.pop()
+        return "{\n%s\n}" % body
+
+    def statement(self, depth):
+        rng = self.rng
+        self.budget -= 1
+        small = depth >= self.maxdepth or self.budget <= 0
+        k = rng.random()
+        if small or k < 0.22:
+            return self.simple_statement()
+        n = rng.randint(1, 4)
+        if k < 0.32:
+            self.features.add("if")
+            s = "if %s %s" % (self.expr(1), self.block(n, depth + 1))
+            while rng.random() < 0.3:
+                s += " else if %s %s" % (self.expr(1), self.block(rng.randint(0, 2), depth + 1))
+            if rng.random() < 0.5:
+                s += " else %s" % self.block(rng.randint(0, 3), depth + 1)
+            return s
+        if k < 0.42:
+            self.features.add("while")
+            c = self.expr(1)
+            self.loop[-1] += 1
+            b = self.block(n, depth + 1)
+            self.loop[-1] -= 1
+            return "while %s %s" % (c, b)
+        if k < 0.52:
+            self.features.add("for")
+            it = rng.choice(["0..3", "[1, 2, 3]", self.expr(2)])
+            self.scopes.append([])
+            v = self.fresh("i")
+            self.declare(v)
+            self.loop[-1] += 1
+            b = self.block(n, depth + 1)
+            self.loop[-1] -= 1
+            self.scopes.pop()
+            return "for %s in %s %s" % (v, it, b)
+        if k < 0.60:
+            return self.block(n, depth + 1)
+        if k < 0.72:
+            self.features.add("fn")
+            name = self.fresh("f")
+            self.declare(name)
+            params = [self.fresh("p") for _ in range(rng.randint(0, 3))]
+            self.enter_fn("fn", params)
+            body = self.block_items(rng.randint(1, 5), depth + 1)
+            self.leave_fn()
+            return "fn %s(%s) {\n%s\n}" % (name, ", ".join(params), body)
+        if k < 0.86:
+            return self.try_statement(depth)
+        if k < 0.93:
+            return self.class_decl(depth)
+        return self.simple_statement()
+
+    def try_statement(self, depth):
+        rng = self.rng
+        self.features.add("try")
+        self.in_try[-1] += 1
+        body = self.block(rng.randint(0, 4), depth + 1)
+        have_catch = rng.random() < 0.75 or self.profile == "clean"
+        have_finally = self.profile == "full" and (not have_catch or rng.random() < 0.4)
+        s = "try %s" % body
+        if have_catch:
+            self.scopes.append([])
+            e = self.fresh("e")
+            self.declare(e)
+            s += " catch %s %s" % (e, self.block(rng.randint(0, 3), depth + 1))
+            self.scopes.pop()
+        if have_finally:
+            self.features.add("finally")
+            s += " finally %s" % self.block(rng.randint(0, 3), depth + 1)
+        self.in_try[-1] -= 1
+        return s
+
+    def class_decl(self, depth):
+        rng = self.rng
+        self.features.add("class")
+        name = self.fresh("K")
+        attrs = []
+        if rng.random() < 0.5:
+            attrs.append("constructor(new)")
+        base = None
+        cands = [v.name for v in self.visible() if v.name.startswith("K")]
+        if cands and rng.random() < 0.5:
+            base = rng.choice(cands)
+            attrs.append("derive(%s)" % base)
+        self.declare(name)
+        self.in_class.append({"has_super": base is not None})
+        members = []
+        for _ in range(rng.randint(0, 3)):
+            r = rng.random()
+            mname = self.fresh("m")
+            params = [self.fresh("p") for _ in range(rng.randint(0, 2))]
+            if r < 0.2:
+                self.enter_fn("static", params)
+                body = self.block_items(rng.randint(1, 3), depth + 2)
+                self.leave_fn()
+                members.append("#[static]\nfn %s(%s) {\n%s\n}" % (mname, ", ".join(params), body))
+            elif r < 0.35 and "constructor(new)" not in attrs and not any("#[constructor]" in m for m in members):
+                self.enter_fn("init", ["self"] + params)
+                body = self.block_items(rng.randint(1, 3), depth + 2)
+                self.leave_fn()
+                members.append("#[constructor]\nfn new(%s) {\n%s\n}" % (", ".join(["self"] + params), body))
+            else:
+                self.enter_fn("method", ["self"] + params)
+                body = self.block_items(rng.randint(1, 4), depth + 2)
+                self.leave_fn()
+                members.append("fn %s(%s) {\n%s\n}" % (mname, ", ".join(["self"] + params), body))
+        self.in_class.pop()
+        head = ("#[%s]\n" % ", ".join(attrs)) if attrs else ""
+        return "%sclass %s {\n%s\n}" % (head, name, "\n".join(members))
+
+    def simple_statement(self):
+        rng = self.rng
+        k = rng.random()
+        if k < 0.28:
+            name = self.fresh("v")
+            init = self.expr(0)
+            s = "var %s = %s;" % (name, init) if rng.random() < 0.9 else "var %s;" % name
+            self.declare(name)
+            return s
+        if k < 0.40:
+            v = self.pick_var()
+            if v:
+                op = rng.choice(["=", "=", "=", "+=", "-="])
+                rhs = self.expr(1) if op == "=" else self.atom()
+                return "%s %s %s;" % (v.name, op, rhs)
+        if k < 0.46:
+            return "%s.%s = %s;" % (self.recv(), rng.choice(["p", "q"]), self.expr(1))
+        if k < 0.50:
+            return "%s[%s] = %s;" % (self.recv(), self.atom(), self.expr(1))
+        if k < 0.62:
+            return "print(%s);" % self.expr(0)
+        if k < 0.70 and self.loop[-1] > 0:
+            self.features.add("break")
+            if self.in_try[-1] > 0:
+                self.features.add("break_in_try")
+            return "break;"
+        if k < 0.77 and self.loop[-1] > 0:
+            self.features.add("continue")
+            if self.in_try[-1] > 0:
+                self.features.add("continue_in_try")
+            return "continue;"
+        if k < 0.87 and self.fkind[-1] != "script" and (self.profile == "full" or self.in_try[-1] == 0):
+            self.features.add("return")
+            if self.in_try[-1] > 0:
+                self.features.add("return_in_try")
+            if self.fkind[-1] == "init" or rng.random() < 0.2:
+                return "return;"
+            return "return %s;" % self.expr(1)
+        if k < 0.91:
+            self.features.add("throw")
+            return "throw %s;" % self.expr(1)
+        if k < 0.94 and self.in_class and self.in_class[-1]["has_super"] and self.fkind[-1] in ("method", "init"):
+            self.features.add("super")
+            return "super.%s(%s);" % (rng.choice(["m", "go"]), self.atom())
+        e = self.expr(0)
+        if not re.match(r"^[A-Za-z_(]", e) or e.startswith("({"):
+            e = "(%s)" % e
+        return "%s;" % e
+
+    def program(self):
+        out = []
+        while self.budget > 0:
+            out.append(self.statement(0))
+        return "\n".join(out)
+
+
+def gen_program(rng, profile, size=None):
+    g = Gen(rng, profile, size=size or rng.choice([8, 15, 25, 40, 60]))
+    src = g.program()
+    return src, sorted(g.features)
